@@ -213,7 +213,7 @@ def afterLast (sep : Char) (t : Text) : Text :=
 /-- the section a table header names: `[target.<cfg>.dependencies]` names `dependencies` -/
 def cargoSection (name : Text) : Text :=
   match stripPrefix "target.".toList name with
-  | some rest => afterLast '.' rest
+  | some rest => if rest.any (· == '.') then afterLast '.' rest else []   -- `[target.dependencies]`: no <cfg> component, no section
   | none => name
 
 def cargoTable (content : Text) (table : Node) : List PkgInfo :=
